@@ -73,11 +73,11 @@ func run(c Case) (res ev.Result) {
 }
 
 var files = ev.NewCheck("C02", "grammar-files",
-	"rapid byte-level grammar: header length 6, format 0/1/2, metric 1..32767 or SMPTE 24/25/29/30, 0..2 alien chunks (one file in forty: 255..1200 tiny ones in one gap) before/between/after 1..5 tracks of 0..14 events (one track in forty: 1000..6000 short events with deltas 0..3), events with running status in any legal position, padded VLQs (<=4 bytes), F0 without F7, F7 packets, unknown meta types, payloads up to 70000 bytes; oracle = expectation by construction cross-checked with an independent decoder, compared event by event with smf.ReadFrom; non-trivial = file uses at least one encoding freedom the library's writer never produces (classes histogram) ; distinct by file bytes",
+	"rapid byte-level grammar: header length 6, format 0/1/2, metric 1..32767 or SMPTE 24/25/29/30, 0..2 alien chunks (one file in 120: 255..1200 tiny ones in one gap) before/between/after 1..5 tracks of 0..14 events (one track in 120: 1000..6000 short events with deltas 0..3), events with running status in any legal position, padded VLQs (<=4 bytes), F0 without F7, F7 packets, unknown meta types, payloads up to 70000 bytes; oracle = expectation by construction cross-checked with an independent decoder, compared event by event with smf.ReadFrom; non-trivial = file uses at least one encoding freedom the library's writer never produces (classes histogram) ; distinct by file bytes",
 	func(t *rapid.T) Case {
 		o := gen.AllFreedoms
-		o.LongTracks = 40
-		o.ManyAlien = 40
+		o.LongTracks = 120
+		o.ManyAlien = 120
 		return Case{gen.File(t, o)}
 	}, run)
 
